@@ -54,6 +54,7 @@ DInit ==
     actors |-> << >>,        \* aid -> [inner, bits, strong, prepQ, notify, hasval, kept, keptR, die]
     owners |-> << >>,        \* oid -> [aid, loc]    loc: top | msg | state | gone
     rets |-> << >>,          \* rid -> [kind, aid, loc]
+    fwds |-> << >>, nextFid |-> 1, nextVal |-> 1,   \* fid -> target actor (fwd_to!); message values sent so far
     race |-> FALSE,          \* a slab child was added while a dead sibling still awaited its removal (export filter)
     evs |-> << >>,           \* events emitted by the current step
     ops |-> << >> ]          \* script lines produced by the current body
@@ -217,6 +218,8 @@ Effects(s, cx) ==
   \cup (IF E("keepret") /\ cx.k = "meth" THEN {[op |-> "keepret", rid |-> r] : r \in TopRets(s)} ELSE {})
   \cup (IF E("query") /\ HasStakker(cx) /\ s.nextId <= MaxItems
         THEN {[op |-> "query", aid |-> a, qb |-> qb] : a \in ActorsOf(s), qb \in {"none", "stop", "fail"}} ELSE {})
+  \cup (IF E("mkfwd") /\ s.nextFid <= MaxRets THEN {[op |-> "mkfwd", aid |-> a] : a \in ActorsOf(s)} ELSE {})
+  \cup (IF E("fwd") /\ s.nextVal <= MaxItems THEN {[op |-> "fwd", fid |-> f] : f \in DOMAIN s.fwds} ELSE {})
   \cup (IF E("zombie") /\ cx.k = "top" THEN {[op |-> "zombie", aid |-> a] : a \in ActorsOf(s)} ELSE {})
 
 SubEv(q, c) ==
@@ -377,6 +380,16 @@ ApplyEff(s, cx, f) ==
                  IN Op(Emit(s4, [e |-> "querye", item |-> id, aid |-> a, some |-> TRUE, okval |-> TRUE]), oprec)
             ELSE Op(Emit(Emit(s0, [e |-> "drop", item |-> id, ran |-> FALSE]),
                          [e |-> "querye", item |-> id, aid |-> a, some |-> FALSE, okval |-> TRUE]), oprec)
+    [] f.op = "mkfwd" ->
+         LET fid == s.nextFid IN
+         Op(Emit([s EXCEPT !.fwds = @ @@ (fid :> f.aid), !.nextFid = @ + 1], [e |-> "mkfwd", fid |-> fid, aid |-> f.aid]),
+            [op |-> "mkfwd", fid |-> fid, aid |-> f.aid])
+    [] f.op = "fwd" ->
+         \* Fwd::fwd: the call is deferred through the target actor's Deferrer (into the void once the Stakker is gone)
+         LET val == 50 + s.nextVal
+             c == [Clo("fwdcall", 0, s.fwds[f.fid], FALSE) EXCEPT !.rid = f.fid, !.val = val]
+             s1 == Emit([s EXCEPT !.nextVal = @ + 1], [e |-> "fwd", fid |-> f.fid, val |-> val])
+         IN Op(IF s.alive THEN [s1 EXCEPT !.deferQ = Append(@, c)] ELSE s1, [op |-> "fwd", fid |-> f.fid, val |-> val])
     [] f.op = "zombie" ->
          Op(Emit(s, [e |-> "zombie", aid |-> f.aid, res |-> s.actors[f.aid].bits = "zombie"]),
             [op |-> "zombie", aid |-> f.aid])
@@ -455,6 +468,14 @@ ExecClosure(s, c) ==
                                 !.actors[c.aid].sfree = <<key>> \o par.sfree]
             IN { [s |-> DropSlabOwner(s1, c.child), id |-> 0, ops |-> << >>, ret |-> ""] }
          ELSE IF par.inner = "prep"
+         THEN { [s |-> [s EXCEPT !.actors[c.aid].prepQ = Append(@, c)], id |-> 0, ops |-> << >>, ret |-> ""] }
+         ELSE { [s |-> s, id |-> 0, ops |-> << >>, ret |-> ""] }
+    [] c.k = "fwdcall" ->
+         LET act == s.actors[c.aid] IN
+         IF act.inner = "ready"
+         THEN { [s |-> Emit(s, [e |-> "fcall", fid |-> c.rid, aid |-> c.aid, val |-> c.val, now |-> T(s.now)]),
+                 id |-> 0, ops |-> << >>, ret |-> ""] }
+         ELSE IF act.inner = "prep"
          THEN { [s |-> [s EXCEPT !.actors[c.aid].prepQ = Append(@, c)], id |-> 0, ops |-> << >>, ret |-> ""] }
          ELSE { [s |-> s, id |-> 0, ops |-> << >>, ret |-> ""] }
     [] c.k = "retcall" ->
